@@ -435,6 +435,20 @@ async fn serve_tcp(ctx: &Ctx, l: Arc<crate::net::tcp::SimTcpL>, script: Arc<Mute
     }
 }
 
+/// A well-behaved TURN server on 10.0.0.50:3478 (tr: 1 = UDP, 2 = TCP) for scenarios that only need an allocation to
+/// exist (no hostile output, nothing relayed). Runs until the caller drops / aborts it.
+pub(crate) async fn serve_benign(ctx: &Ctx, tr: i64) {
+    let script = Arc::new(Mutex::new(Script { fired: Vec::new(), attacks: Vec::new(), allocated: false, post_reqs: 0, bound: None, peer: "10.0.0.2:5000".parse().unwrap(), hostile_bytes: 0, end: 0 }));
+    let s_addr: SocketAddr = "10.0.0.50:3478".parse().unwrap();
+    if tr == 2 {
+        if let Ok(l) = ctx.net.tcp_listen(s_addr) {
+            serve_tcp(ctx, l, script).await;
+        }
+    } else if let Ok(s) = ctx.net.bind(s_addr) {
+        serve_udp(ctx, Arc::new(vh::UdpSocket::from_sim(s)), script).await;
+    }
+}
+
 pub async fn run(ctx: &Ctx) {
     super::hostile::mark_run_start_cpu();
     ctx.net.install_binder();
